@@ -94,6 +94,8 @@ class World(object):
         self.commands = []      # command frames seen by send_cmd_recv_rsp (real-tag runs)
         self.link = []          # NFC-DEP exchanges of the real link loop (real-LLC runs): what the local side sent
         self.term_at = None     # real-LLC busy-traffic runs: terminate() is true from this number of link exchanges on
+        self.term_at_n = None   # time-based terminate(): true once this many scripted answers have been consumed
+        self.k_pos = None       # ... log position at which that happened
         self.term_cap = 60      # ... or after this many polls (a run without any link cannot go on for ever)
         self.polls = 0
         self.activations = []   # (log position, success) of every NFC-DEP activation attempt (real-LLC runs)
@@ -104,6 +106,8 @@ class World(object):
         a = self.env.pop(0) if self.env else ("0",)
         i = self.n
         self.n += 1
+        if self.term_at_n is not None and self.n == self.term_at_n:
+            self.k_pos = len(self.log)
         self.trace.append([site, None, None])
         return a, i
 
@@ -124,7 +128,9 @@ class World(object):
         if len(self.log) > LIMIT:
             raise Runaway("more than %d events, last: %s" % (LIMIT, " ".join(self.log[-6:])))
         self.polls += 1
-        if self.term_at is not None:
+        if self.term_at_n is not None:
+            b = self.n >= self.term_at_n or self.polls > self.term_cap
+        elif self.term_at is not None:
             b = len(self.link) >= self.term_at or self.polls > self.term_cap
         else:
             b = self.ts.pop(0) if self.ts else True
